@@ -17,7 +17,7 @@ def snippets():
 def gen_script(seed, n_inputs=12):
     r = random.Random(seed * 7919 + 13)
     pool = ['1', '2', '0', '-3', '7,8', '1,2,3', 'abc', '3.5', 'x,1', '1,x', '', '40000', '1e3',
-            '5 , 6', '"a,b"', '9,9,9,9', '70000,1', '2.5,hello', 'hello,2', '-1,-1']
+            '5 , 6', '"a,b"', '9,9,9,9', '70000,1', '2.5,hello', 'hello,2', '-1,-1', '5', '10', '100', '-1', '3']
     return {
         'input': [r.choice(pool) for _ in range(n_inputs)],
         'inkey': [r.choice(['', 'a', 'q', '']) for _ in range(6)],
